@@ -122,14 +122,25 @@ CountIn(s, P(_)) == Card({i \in 1..N : E[i].s = s /\ P(E[i])})
 QMay(i) == q0 + Card({j \in 1..(i - 1) : E[j].s = cur /\ E[j].k = "Arr"}) - 1
               - Card({j \in 1..(i - 1) : E[j].s = cur /\ E[j].k = "Rej" /\ E[j].why = "Q"})
 
-\* m' sits inside an inline validator since before this step and still does at index i: it holds no token
-SureInline(mm, i) == \E j \in OpenInline(i) : E[j].m = mm /\ E[j].s < cur
-ValBefore(mm, i) == \E j \in ValIdx(mm) : j < i
-GlobalMay(m, i) == {mm \in Msgs \ {m} : ValBefore(mm, i) /\ HasAsync(mm) /\ ~FinalBeforeStep(mm, cur) /\ ~SureInline(mm, i)}
-EnteredBefore(v, mm, i) == \E j \in 1..(i - 1) : E[j].k = "Enter" /\ E[j].v = v /\ E[j].m = mm /\ ~E[j].loc
-ExitedBeforeStep(v, mm) == \E j \in 1..N : E[j].k = "Exit" /\ E[j].v = v /\ E[j].m = mm /\ ~E[j].loc /\ E[j].s < cur
-VMay(v, m, i) == {mm \in Msgs \ {m} : /\ v \in Appl(mm) /\ ValBefore(mm, i) /\ ~SureInline(mm, i)
-                                      /\ IF EnteredBefore(v, mm, i) THEN ~ExitedBeforeStep(v, mm) ELSE ~FinalBeforeStep(mm, cur)}
+\* The decision to throttle m is taken when its job starts, i.e. (when some of its asynchronous validators were invoked) at the
+\* last such Enter; the outcome is traced only after those validators returned.  d = index of the decision, sd = its step.
+AsyncEnters(m, i) == {j \in 1..(i - 1) : E[j].k = "Enter" /\ E[j].m = m /\ ~E[j].loc /\ Async(E[j].v)}
+DecisionIdx(m, i) == IF AsyncEnters(m, i) = {} THEN i ELSE CHOOSE j \in AsyncEnters(m, i) : \A x \in AsyncEnters(m, i) : x <= j
+FinalBeforeS(mm, sd) == \E j \in FinalIdx(mm) : E[j].s < sd
+\* mm sits inside an inline validator since before step sd and still does at index d: it holds no token
+SureInline(mm, d, sd) == \E j \in OpenInline(d) : E[j].m = mm /\ E[j].s < sd
+ValBefore(mm, d) == \E j \in ValIdx(mm) : j < d
+GlobalMay(m, d, sd) == {mm \in Msgs \ {m} : ValBefore(mm, d) /\ HasAsync(mm) /\ ~FinalBeforeS(mm, sd) /\ ~SureInline(mm, d, sd)}
+EnteredBefore(v, mm, d) == \E j \in 1..(d - 1) : E[j].k = "Enter" /\ E[j].v = v /\ E[j].m = mm /\ ~E[j].loc
+ExitedBeforeS(v, mm, sd) == \E j \in 1..N : E[j].k = "Exit" /\ E[j].v = v /\ E[j].m = mm /\ ~E[j].loc /\ E[j].s < sd
+VMay(v, m, d, sd) == {mm \in Msgs \ {m} : /\ v \in Appl(mm) /\ ValBefore(mm, d) /\ ~SureInline(mm, d, sd)
+                                          /\ IF EnteredBefore(v, mm, d) THEN ~ExitedBeforeS(v, mm, sd) ELSE ~FinalBeforeS(mm, sd)}
+ThrottleJustified(m, i) ==
+    LET d  == DecisionIdx(m, i)
+        sd == E[d].s
+        tried == {v \in Appl(m) : Async(v) /\ ~\E j \in AsyncEnters(m, i) : E[j].v = v} IN     \* asynchronous validators that were not invoked
+    \/ AsyncEnters(m, i) = {} /\ Card(GlobalMay(m, d, sd)) >= cfg.gthr
+    \/ \E v \in tried : Card(VMay(v, m, d, sd)) >= VC(v).thr
 
 ExactAt(i) ==
     LET e == E[i] IN
@@ -139,10 +150,10 @@ ExactAt(i) ==
            ELSE Report("P_X10b_QueueFullExact", e.m, "dropped as 'validation queue full' although the queue held fewer requests than its size",
                        [mayhold |-> QMay(i), cap |-> cfg.qcap, v |-> 0])
     ELSE IF e.why = "T"
-      THEN IF \/ Card(GlobalMay(e.m, i)) >= cfg.gthr
-              \/ \E v \in Appl(e.m) : Async(v) /\ Card(VMay(v, e.m, i)) >= VC(v).thr THEN TRUE
+      THEN IF ThrottleJustified(e.m, i) THEN TRUE
            ELSE Report("P_X10b_ThrottleExact", e.m, "dropped as 'validation throttled' although neither the global nor an applicable validator's throttle was exhausted",
-                       [mayhold |-> Card(GlobalMay(e.m, i)), cap |-> cfg.gthr, v |-> {<<v, Card(VMay(v, e.m, i)), VC(v).thr>> : v \in {u \in Appl(e.m) : Async(u)}}])
+                       [mayhold |-> Card(GlobalMay(e.m, DecisionIdx(e.m, i), E[DecisionIdx(e.m, i)].s)), cap |-> cfg.gthr,
+                        v |-> {<<v, Card(VMay(v, e.m, DecisionIdx(e.m, i), E[DecisionIdx(e.m, i)].s)), VC(v).thr>> : v \in {u \in Appl(e.m) : Async(u)}}])
     ELSE TRUE
 
 -----------------------------------------------------------------------------
